@@ -217,6 +217,12 @@ func report(p *Prog, prop, tier string, seed int, results []*FuncResult, loadT, 
 	var assumptions []string
 	var samples []any
 	kinds := map[string]int{}
+	frOf := map[*Obl]*FuncResult{}
+	for _, fr := range results {
+		for _, o := range fr.Obls {
+			frOf[o] = fr
+		}
+	}
 	for _, fr := range results {
 		under = append(under, shortKey(fr.Key))
 		if fr.OOS != "" {
@@ -293,7 +299,7 @@ func report(p *Prog, prop, tier string, seed int, results []*FuncResult, loadT, 
 		}
 		violations++
 		rp := filepath.Join(verifDir, "replays", prop, sanitizeFile(o.Name)+".json")
-		confirmed := writeReplay(p, rp, prop, o)
+		confirmed := writeReplay(p, rp, prop, o, frOf[o])
 		suffix := ""
 		if !confirmed {
 			suffix = " no-failing-input-found"
@@ -388,11 +394,36 @@ func (k *knownFindings) match(prop, obl string) *knownFinding {
 	return nil
 }
 
-func writeReplay(p *Prog, path, prop string, o *Obl) bool {
-	doc := map[string]any{"property": prop, "obligation": o.Name, "clause": o.Text, "position": o.Pos, "solver_status": o.Status, "backend": o.Backend, "solver_output": o.Output, "confirmed_on_real_code": false}
+func writeReplay(p *Prog, path, prop string, o *Obl, fr *FuncResult) bool {
+	doc := map[string]any{"property": prop, "obligation": o.Name, "clause": o.Text, "position": o.Pos, "solver_status": o.Status,
+		"backend": o.Backend, "solver_output": truncate(o.Output, 1500), "confirmed_on_real_code": false}
+	confirmed := false
+	if fr != nil && fr.Gen != nil && o.Expect != "sat" {
+		dir, _ := os.MkdirTemp("", "govcreplay")
+		defer os.RemoveAll(dir)
+		out := replayObligation(p, fr, o, dir)
+		confirmed = out.Confirmed
+		doc["confirmed_on_real_code"] = out.Confirmed
+		doc["replay_detail"] = out.Detail
+		doc["replay_inputs"] = out.Inputs
+		doc["replay_test_output"] = truncate(out.Output, 4000)
+		if out.Source != "" {
+			src := strings.TrimSuffix(path, ".json") + "_test.go.txt"
+			os.WriteFile(src, []byte(out.Source), 0o644)
+			doc["replay_test_source"] = src
+			doc["how_to_rerun"] = "copy the source to <package dir>/zz_govc_replay_test.go (or use go test -overlay) and run: go test -vet=off -run TestGovcReplay ."
+		}
+	}
 	data, _ := json.MarshalIndent(doc, "", " ")
 	os.WriteFile(path, data, 0o644)
-	return false
+	return confirmed
+}
+
+func truncate(s string, n int) string {
+	if len(s) > n {
+		return s[:n] + "...[truncated]"
+	}
+	return s
 }
 
 var _ = types.Typ
